@@ -236,6 +236,7 @@ func init() {
 		rulePushPair(prog, rep, func(fd *ast.FuncDecl) bool { return twinScope(fd) == "C05" }, 5)
 		ruleKindList(prog, rep, func(fd *ast.FuncDecl) bool { return twinScope(fd) == "C05" }, 10)
 		ruleResultAlias(prog, rep, "jp")
+		ruleOperandSet(prog, rep, 10, "jp")
 		ruleCarry(prog, rep, 100, nil, "jp") // what a filter operand is evaluated against is chosen per operand
 		ruleFullRange(prog, rep, 3, "jp")
 		ruleArgConsist(prog, rep, 20, "jp")
